@@ -173,8 +173,8 @@ def noise_map_via_weight_map_from(weight_map):
     weight_map
         The weight-value of each pixel which is converted to a variance.
     """
-    np.seterr(divide="ignore")
-    noise_map = 1.0 / weight_map**0.5
+    with np.errstate(divide="ignore"):
+        noise_map = 1.0 / weight_map**0.5
     noise_map[noise_map > 1.0e8] = 1.0e8
     return noise_map
 
